@@ -87,9 +87,12 @@ def run(ctx):
         "model domain is 7-bit ASCII lines; Python's str.isdigit()/int() on non-ASCII digits are outside the model",
         "hand-written model M_Checksum.v tied to tlefile.py by this run's sweep (model evaluated by vm_compute inside Coq)",
     ]
-    numeric.regen_ast(ctx, "tle", "Tle._checksum, _read_tle (lines given), _parse_tle, __init__ call order; float()/int()/strptime/"
-                      "timedelta stay the hand models of M_TleText (validated against CPython by the C02 correspondence run)")
+    src, _names = numeric.regen_ast(ctx, "tle", "Tle._checksum, _read_tle (lines given), _parse_tle, __init__ call order; float()/int()/strptime/"
+                                    "timedelta stay the hand models of M_TleText (validated against CPython by the C02 correspondence run)",
+                                    optional=True)
     ctx.build_props("props/C09.v")
+    if src is not None:
+        ctx.build_props("props/C09_source.v")
     tles = list(tlegen.CORPUS[:1]) + [tlegen.random_tle(ctx.rng) for _ in range(ctx.n(2, 14))]
     tmpdir = tempfile.mkdtemp(prefix="verif-c09-", dir="/var/tmp")
     try:
